@@ -117,6 +117,7 @@ func floatCase(rng *vk.Rand) (x, y, fraction, margin float64, placement string) 
 func valueLevel(r *vk.Run) {
 	valueLevelFloat(r)
 	valueLevelTime(r)
+	valueLevelTimeFar(r)
 	valueLevelDuration(r)
 	valueLevelDurationP(r)
 	valueLevelOtherKind(r)
@@ -306,6 +307,66 @@ func valueLevelTime(r *vk.Run) {
 		r.Count("value/"+name+"/judged-tolerance", 1)
 		if eXY != want {
 			r.Violation("C16/"+name+"/tolerance/"+inOut(want)+"-"+placement, fmt.Sprintf("%v: |x-y| = %dns, comparer says %v", replay["comparer"], delta, eXY), replay)
+		}
+	}
+}
+
+// valueLevelTimeFar: timestamps anywhere in the valid protobuf range (years 1..9999) that lie further apart than a
+// time.Duration can express (about 292 years). Their distance exceeds every tolerance, so the comparer must say
+// "not within", both ways round, and each must still be within tolerance of itself.
+func valueLevelTimeFar(r *vk.Run) {
+	const name = "TimeValueWithin"
+	const minS, maxS = int64(-62135596800), int64(253402300799)
+	const far = int64(9_300_000_000) // > math.MaxInt64 nanoseconds, in seconds
+	n := r.Pick(1500, 30000)
+	fd := tsFds[0]
+	anchors := []int64{minS, 0, maxS, -11644473600 /* 1601 */, 9_300_000_000 /* 2264 */}
+	for i := 0; i < n; i++ {
+		if !r.Mine(i) {
+			continue
+		}
+		rng := r.CaseRand("value-time-far", i)
+		var sx, sy int64
+		for {
+			pick := func() int64 {
+				if rng.Chance(1, 3) {
+					return anchors[rng.Intn(len(anchors))]
+				}
+				return minS + int64(rng.Uint64()%uint64(maxS-minS))
+			}
+			sx, sy = pick(), pick()
+			if sx-sy > far || sy-sx > far {
+				break
+			}
+		}
+		x := &timestamppb.Timestamp{Seconds: sx, Nanos: int32(rng.Range(0, 999_999_999))}
+		y := &timestamppb.Timestamp{Seconds: sy, Nanos: int32(rng.Range(0, 999_999_999))}
+		d := []time.Duration{0, time.Nanosecond, time.Second, time.Hour, 24 * 365 * time.Hour, 200 * 24 * 365 * time.Hour}[rng.Intn(6)]
+		c := cmp.TimeValueWithin(d)
+		vx, vy := pref.ValueOfMessage(x.ProtoReflect()), pref.ValueOfMessage(y.ProtoReflect())
+		eXY, okXY, eYX, okYX, panicked, what := callValue(c, fd, vx, vy)
+		replay := map[string]any{"comparer": fmt.Sprintf("TimeValueWithin(%dns)", int64(d)), "x_seconds": fmt.Sprint(sx), "y_seconds": fmt.Sprint(sy), "placement": "far-apart"}
+		r.Eval(2)
+		r.Count("value/"+name+"/far-apart-cases", 1)
+		r.Distinct(fmt.Sprintf("vtf|%d|%d|%d", sx, sy, d))
+		if panicked {
+			r.Violation("C16/"+name+"/panic/value", what, replay)
+			continue
+		}
+		if !okXY || !okYX {
+			r.Violation("C16/"+name+"/own-kind-not-handled/timestamp", "ok=false on a Timestamp field", replay)
+		}
+		for _, v := range []pref.Value{vx, vy} {
+			var e, ok2 bool
+			if pk, _ := vk.Recover(func() { e, ok2 = c(fd, v, v) }); pk || !e || !ok2 {
+				r.Violation("C16/"+name+"/reflexive/far-range", fmt.Sprintf("%v on (t,t) = (%v,%v)", replay["comparer"], e, ok2), replay)
+			}
+		}
+		if eXY != eYX {
+			r.Violation("C16/"+name+"/symmetric/far-apart", fmt.Sprintf("(x,y)=%v (y,x)=%v", eXY, eYX), replay)
+		}
+		if eXY || eYX {
+			r.Violation("C16/"+name+"/tolerance/outside-far-apart", fmt.Sprintf("%v: the timestamps are %d s apart, comparer says within (x,y)=%v (y,x)=%v", replay["comparer"], sx-sy, eXY, eYX), replay)
 		}
 	}
 }
